@@ -20,8 +20,9 @@ GRecKind(G, s) == IF G.early[s] # 0 THEN "early"
 GRecLeaf(G, s) == IF G.early[s] # 0 THEN G.early[s] ELSE G.accept[s]
 
 (* fork.rs fork_eoi: at the end of a *prefix* buffer the generated code      *)
-(* returns None iff the state still has byte edges.                          *)
-GPrefixReturnsNone(G, s) == GHasEdges(G, s)
+(* returns None iff the state still has a way on: a byte edge or the EOI     *)
+(* edge (the end of a prefix buffer is not the end of input).                *)
+GPrefixReturnsNone(G, s) == GHasEdges(G, s) \/ G.eoi[s] # 0
 
 (* Structural shape the generated EOI hop relies on (offset += 1, then the   *)
 (* target records end(offset-1) and must stop): T-root.                      *)
